@@ -19,11 +19,11 @@ example : PTDP_WF { PTDP.fresh with payload := [1, 2, 3], fragment := 1, content
   simp [PTDP_WF]
 
 /-- round trip: the decoder returns the encoder's fields and exactly the bytes that follow; the
-    `low_latency` attribute is not on the wire and keeps whatever the receiving object held -/
+    `low_latency` attribute is not on the wire: the decoder clears it (the frame decoder sets it) -/
 theorem PTDP_roundtrip (s t : PTDP.State) (h : PTDP_WF s) (rest : Bytes) :
     ∃ b, (PTDP.pack s).2 = .ok b ∧ b.length = 6 + s.payload.length ∧
       PTDP.unpack t (b ++ rest) =
-        ({ s with length := s.payload.length, low_latency := t.low_latency }, .ok rest) := by
+        ({ s with length := s.payload.length, low_latency := false }, .ok rest) := by
   refine ⟨_, by rw [ptdp_pack_eq s h], by simp; omega, ?_⟩
   have b := ptdp_unpack_noisy s t h 0 0 (by decide) (by decide) wt_zero_le wt_zero_le rest
   simp only [List.append_assoc] at b ⊢
